@@ -316,7 +316,39 @@ func (e *Env) Run(ops []Op) {
 	}
 }
 
+// missing reports whether op refers to a handle that does not exist because the call
+// that should have produced it failed; such operations are skipped (logged as "skip").
+func (e *Env) missing(op *Op) bool {
+	needSeg := map[string]bool{"persist": true, "close_file": true, "fields": true, "dict": true, "contains": true,
+		"pl_open": true, "stored": true, "dv_open": true, "match": true, "stats": true, "stats_merge": true,
+		"observe": true, "layout": false}
+	if needSeg[op.Op] && e.segs[op.Seg] == nil {
+		return true
+	}
+	if op.Op == "stats_merge" && e.segs[op.Seg2] == nil {
+		return true
+	}
+	if op.Op == "merge" {
+		for _, h := range op.In {
+			if e.segs[h] == nil {
+				return true
+			}
+		}
+	}
+	switch op.Op {
+	case "pl_count":
+		return e.pls[op.Pl] == nil
+	case "it_replace", "it_count":
+		return e.its[op.It] == nil
+	}
+	return false
+}
+
 func (e *Env) Do(op *Op) {
+	if e.missing(op) {
+		e.emit(M{"ev": "skip", "op": op.Op})
+		return
+	}
 	switch op.Op {
 	case "build":
 		e.doBuild(op)
